@@ -298,7 +298,9 @@ fn run(args: &[String]) {
     let scripts: u64 = argument(args, "--scripts").and_then(|s| s.parse().ok()).unwrap_or(20);
     let multi: u64 = argument(args, "--multi").and_then(|s| s.parse().ok()).unwrap_or(0);
     let out = argument(args, "--out").expect("--out").to_string();
-    let dir = scratch_dir(&format!("{shard:02}"));
+    // one directory per shard would make paths depend on the worker count; paths are inputs of
+    // the programs under test (they are string literals), so they are a function of the seed only
+    let dir = zysim_common::run_directory("host", seed, shards * 1000 + shard);
 
     let mut evaluations = 0u64;
     let mut enumerated_scripts = 0u64;
